@@ -587,6 +587,9 @@ func (b *Reader) ReadSliceInt8(data *[]int8, len int32, require bool) error {
 	if len <= 0 {
 		return nil
 	}
+	if int(len) > b.buf.Len() {
+		return fmt.Errorf("read []int8 error: length %d exceeds the remaining %d bytes", len, b.buf.Len())
+	}
 
 	*data = make([]int8, len)
 	_, err := b.buf.Read(*(*[]uint8)(unsafe.Pointer(data)))
@@ -601,6 +604,9 @@ func (b *Reader) ReadSliceUint8(data *[]uint8, len int32, require bool) error {
 	if len <= 0 {
 		return nil
 	}
+	if int(len) > b.buf.Len() {
+		return fmt.Errorf("read []uint8 error: length %d exceeds the remaining %d bytes", len, b.buf.Len())
+	}
 
 	*data = make([]uint8, len)
 	_, err := b.buf.Read(*data)
@@ -612,6 +618,9 @@ func (b *Reader) ReadSliceUint8(data *[]uint8, len int32, require bool) error {
 
 // ReadBytes reads []byte for the given length and the require or optional sign.
 func (b *Reader) ReadBytes(data *[]byte, len int32, require bool) error {
+	if len < 0 || int(len) > b.buf.Len() {
+		return fmt.Errorf("read []byte error: length %d is negative or exceeds the remaining %d bytes", len, b.buf.Len())
+	}
 	*data = make([]byte, len)
 	_, err := b.buf.Read(*data)
 	return err
